@@ -144,7 +144,7 @@ def topoguard(repo):
     return res
 
 
-def tarjan(repo):
+def tarjan(repo, order_clause=True, order_only=False):
     res = RuleResult("R-TARJAN")
     m = repo.mod(DC)
     outer = inner = None
@@ -183,12 +183,21 @@ def tarjan(repo):
         return res
     stack, onstack = src(pushes[0].func.value), src(adds[0].func.value)
     # (3) successor loop
-    loops = [n for n in inner.body if isinstance(n, ast.For) and src(n.iter) == f"{graph}[{node}]"]
-    res.instances += 1
+    loops = [n for n in inner.body if isinstance(n, ast.For) and src(n.iter) in (f"{graph}[{node}]", f"sorted({graph}[{node}])")]
+    res.instances += 2
     if not loops:
         add("successors", f"strong_connect does not iterate the successors {graph}[{node}]")
         return res
     lp = loops[0]
+    # successors are a *set*: visiting them in set order makes the depth of the recursion (and so whether a long chain
+    # overflows the interpreter's stack) depend on PYTHONHASHSEED
+    if order_clause and not src(lp.iter).startswith("sorted("):
+        add("successor-order", f"strong_connect visits `{src(lp.iter)}` in set order: the shape of the depth-first search depends on the "
+            "hash seed, so a 1300-field chain compiles under some seeds and dies with RecursionError under others (C17)", lp.lineno)
+    if order_only:
+        res.findings = [f_ for f_ in res.findings if f_.key.endswith("successor-order")]
+        res.analysed = [DC]
+        return res
     dest = lp.target.id
     tree = back = None
     for st in lp.body:
